@@ -523,6 +523,11 @@ func checkValidationTable(w *World, r *Report) {
 					}
 					gotErr := p.End == "return" && len(p.Ret) == 1 && p.Ret[0] != "nil"
 					passed := strings.HasPrefix(p.End, "stop:") || p.End == "return" && len(p.Ret) == 1 && p.Ret[0] == "nil"
+					if conc == 0 && (gotErr || passed) {
+						// concurrency 0 never reaches validate when loading: the loader applies the
+						// default first (rule loader.defaults), so either answer keeps the property
+						continue
+					}
 					if gotErr != wantErr || (!wantErr && !passed) {
 						bad++
 						if firstBad == "" {
@@ -535,7 +540,7 @@ func checkValidationTable(w *World, r *Report) {
 	}
 	r.Count("valuations", nVal)
 	r.Check(bad == 0, "validate.table", fname+": concurrency/queue_limit/start_delay table", w.Pos(v.Pos()),
-		fmt.Sprintf("%d valuations over sign classes agree with: error ⇔ conc≤0 ∨ limit<0 ∨ delay<0 ∨ (delay>0 ∧ limit=0)", nVal),
+		fmt.Sprintf("%d valuations over sign classes agree with: error ⇔ conc<0 ∨ limit<0 ∨ delay<0 ∨ (delay>0 ∧ limit=0); conc=0 is defaulted before validation (either answer accepted)", nVal),
 		fmt.Sprintf("%d of %d valuations disagree with the stated validation table; first: %s", bad, nVal, firstBad))
 
 	// dependency loop: presence test for every depends_on entry in the same pipeline's tasks
